@@ -289,6 +289,9 @@ func init() {
 		n := args[1].(*Term)
 		avail := c.Bin(OpSub, b.Len, o)
 		n = c.Ite(c.Bin(OpSlt, avail, n), avail, n)
+		if it.branch(c.Bin(OpSlt, n, c.Int(0))) {
+			it.rtPanic("slice bounds out of range (bytes.Buffer.Next with negative n)")
+		}
 		rest := it.bufRest(b, o)
 		it.storeSlot(off, c.Bin(OpAdd, o, n))
 		if rest.Obj == nil {
